@@ -10,6 +10,7 @@ import (
 
 	"golang.org/x/tools/go/ssa"
 	"govc/internal/smt"
+	"govc/internal/spec"
 )
 
 type cont func(st *State, rets []Value)
@@ -139,6 +140,7 @@ type exec struct {
 	closures map[string]*closureInfo // by Ref term
 	calleeNameCache map[string]string
 	lastAppendKeep  *smt.Term // set by appendOp: the condition under which the last append stayed in place
+	sawCut          map[*spec.CallSite]bool // cut clauses whose tail is already being explored
 }
 
 type closureInfo struct {
@@ -336,6 +338,12 @@ func (x *exec) step(st *State, fr *Frame, b *ssa.BasicBlock, ins ssa.Instruction
 		if ins.Heap {
 			r := e.newRef(st, allocHint(ins))
 			st.regs[ins] = Value{T: ins.Type(), L: []smt.Term{r}}
+			if ti, key := e.w.typeInvOf(ins.Type()); ti != nil {
+				if fr.loops.inAnyLoop[b] {
+					unsupported("allocation of a type with a declared invariant inside a loop")
+				}
+				st.tiAllocs = append(st.tiAllocs, tiAlloc{r, key, ins.Type()})
+			}
 			e.storePtr(st, &Ptr{Kind: PtrHeap, Base: r, Root: elem}, e.zero(elem))
 			if addrPrivate(ins, 0) {
 				// a named local variable that lives in a heap cell
@@ -491,8 +499,11 @@ func (x *exec) step(st *State, fr *Frame, b *ssa.BasicBlock, ins ssa.Instruction
 		x.mapUpdate(st, fr, ins)
 		return false
 	case *ssa.Send:
-		// channel send: only used for Conn.mu (a one-slot channel used as a mutex); no effect on verified state
-		e.note("channel send in %s treated as lock release", shortKey(FuncKey(ins.Parent())))
+		// channel send: no effect on verified state (Conn.mu is a one-slot channel used as a mutex); recorded as a quiet
+		// event so that contracts can count and order channel operations (calls(chan.send), arg(chan.send, k, ch))
+		e.note("channel send in %s: no effect on verified state, blocking not modelled", shortKey(FuncKey(ins.Parent())))
+		x.recordEventVals(st, ins, "chan:send", "chan", []Value{x.val(st, fr, ins.Chan), x.val(st, fr, ins.X)}, []string{"ch", "val"})
+		st.trace[len(st.trace)-1].Quiet = true
 		return false
 	case *ssa.Go:
 		x.recordEvent(st, fr, ins, "go")
@@ -575,7 +586,32 @@ func (x *exec) step(st *State, fr *Frame, b *ssa.BasicBlock, ins ssa.Instruction
 		x.e.obligation(st, "safe", "panic"+x.siteName(ins), "C09.nopanic", "explicit panic is unreachable", posString(e.w.fset(), ins.Pos()), smt.False)
 		return true
 	case *ssa.Select:
-		unsupported("select statement")
+		// select: which ready case is taken is not modelled - the index is arbitrary among the cases (or -1, the default
+		// case, when the select does not block), received values are arbitrary values of their types. Blocking and
+		// wake-up order are outside sequential reasoning (reported as an assumption).
+		e.note("select in %s: the case taken is arbitrary, received values unconstrained; blocking not modelled", shortKey(FuncKey(ins.Parent())))
+		idx := e.ctx.Fresh("selidx", bv64)
+		lo := zero64
+		if !ins.Blocking {
+			lo = smt.BVLit(^uint64(0), 64)
+		}
+		st.assume(smt.And(smt.BVCmp("bvsle", lo, idx), smt.BVCmp("bvslt", idx, smt.BVLit(uint64(len(ins.States)), 64))))
+		tup := ins.Type().(*types.Tuple)
+		out := Value{T: ins.Type(), Elems: []Value{scalar(tup.At(0).Type(), idx), scalar(types.Typ[types.Bool], e.ctx.Fresh("selok", smt.Bool))}}
+		for i := 2; i < tup.Len(); i++ {
+			rv := e.fresh("selrecv", tup.At(i).Type())
+			e.assumeValid(st, rv)
+			out.Elems = append(out.Elems, rv)
+		}
+		var chans []Value
+		for _, s := range ins.States {
+			chans = append(chans, x.val(st, fr, s.Chan))
+		}
+		x.recordEventVals(st, ins, "chan:select", "chan", append([]Value{scalar(tInt, idx)}, chans...), []string{"index"})
+		st.trace[len(st.trace)-1].Quiet = true
+		st.trace[len(st.trace)-1].Rets = []Value{scalar(tInt, idx)}
+		st.regs[ins] = out
+		return false
 	case *ssa.Range:
 		// iteration over a map or a string is abstracted: Next yields an arbitrary element (no order, no guarantee
 		// that every element is visited exactly once); the loop is cut like any other
@@ -781,8 +817,10 @@ func (x *exec) unop(st *State, fr *Frame, ins *ssa.UnOp) Value {
 	case token.XOR:
 		return scalar(ins.Type(), smt.BVNot(v.one()))
 	case token.ARROW:
-		// channel receive: value unconstrained
-		e.note("channel receive in %s treated as lock acquire", shortKey(FuncKey(ins.Parent())))
+		// channel receive: value unconstrained; recorded as a quiet event (calls(chan.recv), arg(chan.recv, k, ch))
+		e.note("channel receive in %s: received value unconstrained, blocking not modelled", shortKey(FuncKey(ins.Parent())))
+		x.recordEventVals(st, ins, "chan:recv", "chan", []Value{v}, []string{"ch"})
+		st.trace[len(st.trace)-1].Quiet = true
 		et := types.Unalias(ins.X.Type()).Underlying().(*types.Chan).Elem()
 		r := e.fresh("recv", et)
 		e.assumeValid(st, r)
